@@ -32,6 +32,12 @@ struct ghost_t {
   unsigned char xl[USCXML_MAX_NR_STATES_BYTES], el[USCXML_MAX_NR_STATES_BYTES]; /* ORDER_LOG: states whose onexit / onentry content ran */
   unsigned char tl[USCXML_MAX_NR_TRANS_BYTES]; /* ORDER_LOG: transitions whose content ran */
   int last_tsrc;        /* ORDER_LOG: source of the last transition whose content ran */
+  unsigned char il[USCXML_MAX_NR_STATES_BYTES]; /* ORDER_LOG: states whose <initial> / default history transition content ran */
+#if D_SEQ > 0
+  int seq_on;           /* SEQ: all callbacks the document's content needs are present (a missing one aborts a handler half-way) */
+  int seq_expect;       /* SEQ: number of the executable element that has to run next (0: no handler running) */
+  int seq_started[D_SEQ + 1]; /* SEQ: how often the handler block beginning with element n was started in this step */
+#endif
   int ans_m[D_T + 1];   /* what is_matched answers for transition t during this step (chosen up front, any value) */
   int ans_c[D_T + 1];   /* what is_true answers for the condition text of transition t (one answer per text) */
 } G;
@@ -46,6 +52,29 @@ static char g_event_obj; /* the one event object the queues hand out */
 
 #define NT (USCXML_MACHINE.nr_transitions)
 #define NS (USCXML_MACHINE.nr_states)
+
+#if D_SEQ > 0 && defined(SPEC_ANS)
+/* SEQ convention (corpus/c17_exec_content_seq.scxml): the executable elements carry numbers q<nn> / Q<nn>; the control flow
+   of every handler block is read from the XML (d_seq_*); each callback must be invoked for exactly the element that is due */
+static int seq_num(const char *s) {
+  if (s != 0 && (s[0] == 'q' || s[0] == 'Q') && s[1] >= '0' && s[1] <= '9' && s[2] >= '0' && s[2] <= '9' && s[3] == 0) return (s[1] - '0') * 10 + (s[2] - '0');
+  return 0;
+}
+static int seq_visit(int n, int kind) {
+  __CPROVER_assert(n >= 1 && n <= D_SEQ && d_seq_kind[n <= D_SEQ ? n : 0] == kind, "C04.content: the callback that is invoked fits the kind of the executable element (condition / action)");
+  if (n < 1 || n > D_SEQ) return 0;
+  if (G.seq_expect == 0) {
+    __CPROVER_assert(d_seq_entry[n], "C04.content: a handler block starts with its first executable element");
+    G.seq_started[n]++;
+  } else {
+    __CPROVER_assert(n == G.seq_expect, "C04.content: executable content runs in document order, every element once; an <if> chain tests its conditions in order, each with its own condition, and runs the first branch whose condition holds (else the <else> branch)");
+  }
+  return 1;
+}
+#define SEQ_PLAIN(str) do { int n_ = G.seq_on ? seq_num(str) : 0; if (n_) { g_calls = 1; if (seq_visit(n_, 1)) G.seq_expect = d_seq_next[n_]; return USCXML_ERR_OK; } } while (0)
+#else
+#define SEQ_PLAIN(str) do { } while (0)
+#endif
 
 static void *stub_dequeue_internal(const uscxml_ctx *ctx) {
   g_calls = 1;
@@ -75,6 +104,9 @@ static int stub_is_matched(const uscxml_ctx *ctx, const uscxml_transition *t, co
 static int stub_is_true(const uscxml_ctx *ctx, const char *expr) {
   g_calls = 1;
   __CPROVER_assert(expr != 0, "C04.callback: is_true receives an expression");
+#if D_SEQ > 0 && defined(SPEC_ANS)
+  { int n_ = G.seq_on ? seq_num(expr) : 0; if (n_) { int a_ = nondet_int(); if (seq_visit(n_, 2)) G.seq_expect = a_ ? d_seq_true[n_] : d_seq_false[n_]; return a_; } }
+#endif
 #ifdef SPEC_ANS
   if (expr != 0) { int ci = sps_cond_index(expr); if (ci >= 0) return G.ans_c[ci]; }
 #endif
@@ -92,10 +124,22 @@ static int stub_raise_done_event(const uscxml_ctx *ctx, const uscxml_state *stat
 /* ORDER_LOG (corpus/c12_content_order.scxml, every chart of corpus/gen_charts.py): <log expr="X<nn>"> in onexit, "E<nn>" in
    onentry (nn: a number per state, increasing in document order), "T<kk>" in transitions */
 static int stub_log(const uscxml_ctx *ctx, const char *label, const char *expr) {
+  SEQ_PLAIN(expr);
   g_calls = 1;
 #if D_ORDER_LOG && defined(SPEC_ANS) /* part B only: part A proves nothing but the loop invariant and must stay loop-free here */
-  if (expr != 0 && (expr[0] == 'X' || expr[0] == 'E' || expr[0] == 'T')) {
+  if (expr != 0 && (expr[0] == 'X' || expr[0] == 'E' || expr[0] == 'T' || expr[0] == 'I' || expr[0] == 'H')) {
     int n = (expr[1] - '0') * 10 + (expr[2] - '0');
+    if (expr[0] == 'I' || expr[0] == 'H') {
+      /* content of an <initial> transition (I<nn>) / of the default transition of a history (H<nn>), nn = number of the parent state */
+      int p = -1;
+      for (int j = 1; j < D_N; j++) if (d_lognum[j] == n) p = j;
+      __CPROVER_assert(g_phase == 3 && n == g_last, "C04.order: the content of an <initial> transition / of a default history transition runs right after the onentry content of the parent state");
+      if (p >= 0) {
+        __CPROVER_assert(!sp_bit(G.il, p), "C04.content: the content of an <initial> / default history transition runs at most once per step");
+        G.il[p >> 3] = (unsigned char)(G.il[p >> 3] | (1u << (p & 7)));
+      }
+      return USCXML_ERR_OK;
+    }
     if (expr[0] == 'T') {
       int t = -1;
       for (int u = 0; u < D_T; u++) if (d_tlognum[u] == n) t = u;
@@ -132,8 +176,8 @@ static int stub_log(const uscxml_ctx *ctx, const char *label, const char *expr) 
 #endif
   return nondet_err();
 }
-static int stub_raise(const uscxml_ctx *ctx, const char *event) { g_calls = 1; return nondet_err(); }
-static int stub_send(const uscxml_ctx *ctx, const uscxml_elem_send *send) { g_calls = 1; __CPROVER_assert(send != 0, "C04.callback: send element"); return nondet_err(); }
+static int stub_raise(const uscxml_ctx *ctx, const char *event) { SEQ_PLAIN(event); g_calls = 1; return nondet_err(); }
+static int stub_send(const uscxml_ctx *ctx, const uscxml_elem_send *send) { g_calls = 1; __CPROVER_assert(send != 0, "C04.callback: send element"); if (send != 0) SEQ_PLAIN(send->event); return nondet_err(); }
 static int stub_foreach_init(const uscxml_ctx *ctx, const uscxml_elem_foreach *f) { g_calls = 1; return nondet_err(); }
 static int stub_foreach_next(const uscxml_ctx *ctx, const uscxml_elem_foreach *f) {
   g_calls = 1;
@@ -142,13 +186,15 @@ static int stub_foreach_next(const uscxml_ctx *ctx, const uscxml_elem_foreach *f
   return nondet_err();
 }
 static int stub_foreach_done(const uscxml_ctx *ctx, const uscxml_elem_foreach *f) { g_calls = 1; return nondet_err(); }
-static int stub_assign(const uscxml_ctx *ctx, const uscxml_elem_assign *a) { g_calls = 1; __CPROVER_assert(a != 0, "C04.callback: assign element"); return nondet_err(); }
+static int stub_assign(const uscxml_ctx *ctx, const uscxml_elem_assign *a) { g_calls = 1; __CPROVER_assert(a != 0, "C04.callback: assign element"); if (a != 0) SEQ_PLAIN(a->location); return nondet_err(); }
 static int stub_init(const uscxml_ctx *ctx, const uscxml_elem_data *d) { g_calls = 1; __CPROVER_assert(d != 0, "C04.callback: data element"); return nondet_err(); }
-static int stub_cancel(const uscxml_ctx *ctx, const char *sendid, const char *sendidexpr) { g_calls = 1; return nondet_err(); }
+static int stub_cancel(const uscxml_ctx *ctx, const char *sendid, const char *sendidexpr) { SEQ_PLAIN(sendid); g_calls = 1; return nondet_err(); }
 static int stub_script(const uscxml_ctx *ctx, const char *src, const char *content) { g_calls = 1; return nondet_err(); }
 static int stub_invoke(const uscxml_ctx *ctx, const uscxml_state *s, const uscxml_elem_invoke *inv, unsigned char uninvoke) {
   g_calls = 1;
   __CPROVER_assert(s >= &USCXML_MACHINE.states[0] && s < &USCXML_MACHINE.states[0] + NS, "C04.callback: invoke receives a state of the machine");
+  __CPROVER_assert((ctx->flags & USCXML_CTX_TOP_LEVEL_FINAL) || ctx->dequeue_internal == 0 || g_int_last_null,
+                   "C04.order: invocations are started and cancelled only when the internal queue has answered empty (end of the macrostep), or when the machine completes");
   return nondet_err();
 }
 
@@ -230,6 +276,12 @@ static void setup_ctx(void) {
   for (int k = 0; k < USCXML_MAX_NR_STATES_BYTES; k++) { G.xl[k] = 0; G.el[k] = 0; }
   for (int k = 0; k < USCXML_MAX_NR_TRANS_BYTES; k++) G.tl[k] = 0;
   G.last_tsrc = 0;
+  for (int k = 0; k < USCXML_MAX_NR_STATES_BYTES; k++) G.il[k] = 0;
+#if D_SEQ > 0
+  G.seq_on = g_ctx.exec_content_log != 0 && g_ctx.exec_content_raise != 0 && g_ctx.exec_content_send != 0 && g_ctx.exec_content_assign != 0 && g_ctx.exec_content_cancel != 0 && g_ctx.is_true != 0;
+  G.seq_expect = 0;
+  for (int k = 0; k <= D_SEQ; k++) G.seq_started[k] = 0;
+#endif
 }
 
 int wit_ans_m[D_T + 1], wit_ans_c[D_T + 1], wit_sel[D_T + 1];
@@ -377,6 +429,24 @@ void h_step(void) {
         if (d_tlognum[t] < 0) continue;
         wit_row = t;
         __CPROVER_assert(sp_bit(G.tl, t) == sel[t], "C04.content: transition content runs exactly for the transitions of the optimal enabled transition set");
+      }
+    }
+#endif
+#if D_SEQ > 0
+    if (G.seq_on) {
+      __CPROVER_assert(0, "CANARY executable-content sequence clause reached");
+      __CPROVER_assert(G.seq_expect == 0, "C04.content: every handler block that started ran to its end");
+      for (int i = 1; i < D_N; i++) {
+        wit_row = i;
+        if (d_seq_onexit[i]) __CPROVER_assert(G.seq_started[d_seq_onexit[i]] == sp_bit(sx, i), "C04.content: the onexit block of a state runs exactly once if the state is in the exit set, else not at all");
+        if (d_seq_onentry[i]) __CPROVER_assert(G.seq_started[d_seq_onentry[i]] == sp_bit(se, i), "C04.content: the onentry block of a state runs exactly once if the state is entered, else not at all");
+      }
+      for (int t = 0; t < D_T; t++) {
+        if (!d_seq_trans[t]) continue;
+        wit_row = t;
+        if (sp_proper(d_tsrc[t])) __CPROVER_assert(G.seq_started[d_seq_trans[t]] == sel[t], "C04.content: the content of a transition runs exactly once if the transition is taken, else not at all");
+        else __CPROVER_assert(G.seq_started[d_seq_trans[t]] == 0 || (G.seq_started[d_seq_trans[t]] == 1 && sp_bit(se, d_parent[d_tsrc[t]])),
+                              "C04.content: the content of an <initial> / default history transition runs at most once, and only in a step that enters the parent state");
       }
     }
 #endif
